@@ -12,7 +12,8 @@ from ..sim import core
 ID = "C13"
 P = "Webauthn.Props.C13."
 THEOREMS = [P + n for n in ("faithful_reg", "faithful_auth", "transports", "text_eq_dict_reg", "text_eq_dict_auth",
-                            "rejects_reg", "rejects_auth", "client_data")]
+                            "rejects_reg", "rejects_auth", "client_data", "attachment_values", "credential_type_values",
+                            "attachment_exact", "type_exact")]
 LEAN_TARGETS = ["Props.C13"]
 SPEC_FILES = ["Spec/Core.lean"]
 ASSUMPTIONS = ["json.loads is an oracle (the model sees the Python value it returns)",
